@@ -120,6 +120,15 @@ class DisasmModel:
                 if n_lit >= 40 and "u8" in (m["scrut"].get("ty") or ""):
                     if best is None or n_lit > best[2]:
                         best = (b, m, n_lit, ps)
+        if best is not None:
+            # read the function together with the private helpers of its module (a push-completion step moved into a helper is
+            # still part of the transducer)
+            b2 = F.inline_module_helpers(fx, best[0])
+            for m, ps in F.exprs(b2["hir"]["value"], "Match"):
+                n_lit = sum(1 for a in m["arms"] if a["pat"].get("p") in ("Lit", "Range"))
+                if n_lit == best[2] and "u8" in (m["scrut"].get("ty") or ""):
+                    best = (b2, m, n_lit, ps)
+                    break
         if best is None:
             self.problems.append("no function with a byte -> opcode match table found")
             return
